@@ -33,7 +33,7 @@ fn main() {
 
 fn gen(a: &Args) {
     let mut rng = Rng::new(a.seed);
-    let mut w = CaseWriter::new(&a.out, "C28", "Corr.C28", 12);
+    let mut w = CaseWriter::new(&a.out, "C28", "Corr.C28", if a.thorough() { 12 } else { 4 });
     let mut rejected = 0u64;
     let mut ops_total = 0u64;
     let mut emit = |w: &mut CaseWriter, ran: Ran| {
@@ -51,8 +51,8 @@ fn gen(a: &Args) {
             }
         }
     } else {
-        // clean-regime kinds get most of the budget; the kinds aimed at the recorded defect classes a smaller share
-        let (per_clean, per_directed, budget) = if a.thorough() { (110, 30, 700) } else { (12, 4, 260) };
+        // general kinds get most of the budget; the kinds aimed at the regimes of the (fixed / surviving) findings a smaller share
+        let (per_clean, per_directed, budget) = if a.thorough() { (110, 30, 700) } else { (6, 2, 200) };
         for kind in KINDS {
             let per_kind = if DIRECTED.contains(&kind) { per_directed } else { per_clean };
             for _ in 0..per_kind {
